@@ -25,6 +25,9 @@ type wctx struct {
 	path []string // moves from the seed (TREE) for replay
 	seed string
 	user interface{}
+	// clampSeen: a promotion pushed the raw game-phase sum above 24 on this live position (known
+	// phase-clamp defect): from then on its game phase may have drifted
+	clampSeen bool
 }
 
 // replayOf describes the current state for a replay artefact.
@@ -59,6 +62,22 @@ func famPEP(kinds []int8, second bool, name string) family {
 }
 func famPPromo() family {
 	return family{"PPROMO", 64, func(s, n int, e space.Emit) { space.PPromo(s, n, e) }}
+}
+func famPPromoAD() family {
+	return family{"PPROMO(pawn on files a-d)", 64, func(s, n int, e space.Emit) { space.PPromoFiles(s, n, 4, e) }}
+}
+func famPPromo2(all bool) family {
+	if all {
+		ks := make([]int, 64)
+		for i := range ks {
+			ks[i] = i
+		}
+		return family{"PPROMO2(own king anywhere)", 64, func(s, n int, e space.Emit) { space.PPromo2(s, n, ks, e) }}
+	}
+	return family{"PPROMO2(own king in a corner)", 64, func(s, n int, e space.Emit) { space.PPromo2(s, n, []int{0, 7, 56, 63}, e) }}
+}
+func famPBlock() family {
+	return family{"PBLOCK", 6, func(s, n int, e space.Emit) { space.PBlock(s, n, e) }}
 }
 func famPDisc() family {
 	return family{"PDISC", 64, func(s, n int, e space.Emit) { space.PDisc(s, n, e) }}
@@ -95,6 +114,7 @@ func runFamilies(run *vl.Run, fams []family, newUser func() interface{}, fn stat
 					return
 				}
 				local++
+				w.clampSeen = false
 				if local%50000 == 1 {
 					run.SampleCat(f.name, map[string]interface{}{"family": f.name, "fen": fen})
 				}
@@ -206,6 +226,9 @@ func runTree(run *vl.Run, seeds []string, depth int, newUser func() interface{},
 					em := eng.EngMove(m)
 					lt++
 					w.path = append(w.path, m.String())
+					if isClampEvent(p, em) {
+						w.clampSeen = true
+					}
 					p.DoMove(em)
 					walk(r.Make(m), d-1)
 					p.UndoMove()
@@ -229,6 +252,9 @@ func runTree(run *vl.Run, seeds []string, depth int, newUser func() interface{},
 			w.path = append(w.path, m.String())
 			run.SampleCat(w.fam+"/moves", map[string]interface{}{"family": w.fam, "seed_fen": j.seed, "first_move": m.String()})
 			msg, pan := vl.Guard(func() {
+				if isClampEvent(p, eng.EngMove(m)) {
+					w.clampSeen = true
+				}
 				p.DoMove(eng.EngMove(m))
 				lt++
 				walk(r.Make(m), depth-1)
